@@ -42,6 +42,8 @@ func main() {
 		os.Exit(cmdCheck(args[1], args[2]))
 	case "list":
 		os.Exit(cmdList())
+	case "dump":
+		os.Exit(cmdDump(args[1:]))
 	}
 	fmt.Fprintln(os.Stderr, "unknown command", args[0])
 	os.Exit(2)
@@ -154,8 +156,7 @@ func cmdFunc(names []string) int {
 		fmt.Println("load error:", err)
 		return 2
 	}
-	e.db = db
-	e.usedLemmas = map[string]bool{}
+	e.setDB(db)
 	fmt.Printf("loaded %v in %.1fs\n", pats, time.Since(t0).Seconds())
 	dir, _ := os.MkdirTemp("", "govc")
 	if !*flagKeep {
